@@ -40,7 +40,7 @@ def Subtable.guarded : Subtable → Bool
   | .gpos21 pairs => pairs.all fun e => pairOk e.2
   | .gpos22 _ _ _ adj => adj.all fun row => row.all pairOk
   | .gpos31 cov recs => covBelow cov recs.length
-  | .gpos41 markCov baseCov marks bases => covBelow markCov marks.length && covBelow baseCov bases.length
+  | .gpos41 markCov baseCov marks bases _ => covBelow markCov marks.length && covBelow baseCov bases.length
   | .gpos61 markCov baseCov marks bases => covBelow markCov marks.length && covBelow baseCov bases.length
 
 /-- subtables that push onto the stack of nested actions -/
